@@ -259,7 +259,7 @@ EXT_MENU = [(0x0000, 0x0000), (0xFFFF, 0xFFFF), (0x5555, 0xAAAA), (0x1234, 0x567
 X86_PREFIXES = {
     16: [b"", b"\x66", b"\x67", b"\xf2", b"\xf3"],
     32: [b"", b"\x66", b"\x67", b"\xf2", b"\xf3"],
-    64: [b"", b"\x66", b"\x67", b"\xf2", b"\xf3", b"\x48", b"\x45"],
+    64: [b"", b"\x48", b"\x66", b"\x45", b"\x67", b"\xf2", b"\xf3"],
 }
 X86_MAPS = [b"", b"\x0f"]
 # ModRM (or first immediate) byte menu: every mod, SIB / disp-only forms, register ramps
@@ -463,14 +463,16 @@ def decode(name, raw):
         return None
 
 
-def iter_shard(shard, stats):
-    """Yield (raw, instr) for every element of the shard that the decoder accepts, once per distinct decoded
-    byte string (instr.b) inside the shard.  stats (dict) receives: elements, holes, undecodable,
-    decoder_raised:<Type>, decoded, distinct."""
+def iter_shard_indexed(shard, stats, stride=1):
+    """Yield (index, raw, instr) for every element of the shard (only indexes that are multiples of `stride`) that
+    the decoder accepts, once per distinct decoded byte string (instr.b) inside the shard.  stats (dict) receives:
+    elements, holes, undecodable, decoder_raised:<Type>, decoded, distinct."""
     name, kind, dims, lo, hi = shard
     src = source(name, kind, dims)
     seen = set()
     for i in range(lo, hi):
+        if stride > 1 and i % stride:
+            continue
         b = src.item(i)
         if b is None:
             stats["holes"] = stats.get("holes", 0) + 1
@@ -494,6 +496,11 @@ def iter_shard(shard, stats):
         stats["distinct"] = stats.get("distinct", 0) + 1
         if kind != "cube":
             stats.setdefault("_keys", []).append(key)
+        yield i, raw, instr
+
+
+def iter_shard(shard, stats):
+    for _i, raw, instr in iter_shard_indexed(shard, stats):
         yield raw, instr
 
 
@@ -658,3 +665,26 @@ def bundles(shard_list, n):
         if cur:
             out.append(cur)
     return out
+
+
+# ---------------------------------------------------------------------------------------------
+# performance: CPython >= 3.11 keeps interpreter frames in 16 KiB "data stack chunks" that are mmap()ed when a call
+# crosses the end of the current chunk and munmap()ed as soon as the call returns.  pyparsing / expression visitors
+# recurse deeply and oscillate across chunk boundaries, so every instruction parsed cost ~80 page faults (0.1-0.7 ms
+# each on this VM).  Running the work below one frame that *claims* a 4 MiB evaluation stack makes CPython allocate one
+# 8 MiB chunk whose spare half then serves all nested frames.  Pure speed-up; no effect on what is computed.
+
+def _tramp(fn, arg):
+    return fn(arg)
+
+
+try:
+    import types as _types
+    _big = _types.FunctionType(_tramp.__code__.replace(co_stacksize=(1 << 19) + 64), globals())
+except Exception:           # other interpreters / future versions: plain call
+    _big = _tramp
+
+
+def deep_call(fn, arg):
+    """fn(arg), executed below a frame with a huge (untouched) evaluation stack - see above."""
+    return _big(fn, arg)
